@@ -23,7 +23,9 @@ type appOp struct {
 
 type txSpec struct {
 	tid      int
-	cyclic   bool // SendType cyclic with a 1 ms cycle time (real ticker: ticks are nondeterministic)
+	cyclic   bool          // SendType cyclic with a 1 ms cycle time (real ticker: ticks are nondeterministic)
+	cycle    time.Duration // cycle time of an event message (no ticker; it is the send timeout, 0 = the default of 1 s)
+	startOn  bool          // cyclic transmission is already enabled when the transmitter starts, the wake-up channel is empty
 	hookFail map[int]bool
 	hookLock map[int]bool
 	txFail   map[int]bool
@@ -386,16 +388,20 @@ func setup(sc scenario, dir *directed) (*runner, string) {
 	for _, x := range sc.txs {
 		d := &descriptor.Message{Name: fmt.Sprintf("Tx%d", x.tid), ID: uint32(x.tid), SendType: descriptor.SendTypeEvent}
 		role := "tx"
+		d.CycleTime = x.cycle
 		if x.cyclic {
 			d.SendType = descriptor.SendTypeCyclic
 			d.CycleTime = time.Millisecond
 			role = "txc"
 		}
+		if x.startOn {
+			role += "on"
+		}
 		m := &fakeTxMsg{w: w, n: n, tid: x.tid, desc: d, wakeCh: make(chan struct{}, 1), evOut: make(chan struct{}),
-			hookFail: x.hookFail, hookLock: x.hookLock, txFail: x.txFail}
+			hookFail: x.hookFail, hookLock: x.hookLock, txFail: x.txFail, flag: x.startOn}
 		w.msgs[x.tid] = m
 		r.threads = append(r.threads, x.tid)
-		cfg = append(cfg, fmt.Sprintf("%x:%s", x.tid, role))
+		cfg = append(cfg, fmt.Sprintf("%x:%s:%x", x.tid, role, int64(d.CycleTime)))
 	}
 	mut := 0
 	if len(sc.txs) > 0 {
@@ -529,19 +535,21 @@ func fixedScenarios() []scenario {
 	off := func(m int) []appOp { return []appOp{{kind: "offer", m: m}} }
 	return []scenario{
 		{name: "lock", hasRx: true,
-			rx:   []rxItem{{id: 0x10, hookLock: true}, {id: 0x99}, {id: 0x11}, {end: true}},
+			rx:   []rxItem{{id: 0x10, hookLock: true}, {id: 0x99, remote: true}, {id: 0x11}, {id: 0x98, extended: true, badLen: true}, {id: 0x10, remote: true}, {id: 0x11}, {end: true}},
 			txs:  []txSpec{{tid: 2, hookLock: map[int]bool{1: true}}},
 			apps: [][]appOp{cat(lockBlock(appOp{kind: "mutate", m: 2, v: 5}), off(2)), lockBlock(appOp{kind: "mutate", m: 2, v: 9})}},
 		{name: "toggle", txs: []txSpec{{tid: 2}},
 			apps: [][]appOp{cat(toggle(2, true), off(2), toggle(2, false)), cat(off(2), toggle(2, true))}},
-		{name: "twotx", txs: []txSpec{{tid: 2}, {tid: 3, hookLock: map[int]bool{1: true}}},
+		{name: "twotx", txs: []txSpec{{tid: 2, cycle: 250 * time.Millisecond}, {tid: 3, cycle: 2 * time.Millisecond, hookLock: map[int]bool{1: true}}},
 			apps: [][]appOp{cat(off(2), off(3), toggle(3, true)), cat(lockBlock(appOp{kind: "mutate", m: 3, v: 4}), off(3))}},
-		{name: "txerrors", hasRx: true, rx: []rxItem{{id: 0x10}, {id: 0x11, unmFail: true}, {id: 0x10}, {end: true}},
+		{name: "txerrors", hasRx: true, rx: []rxItem{{id: 0x10}, {id: 0x11, extended: true}, {id: 0x10}, {end: true}},
 			txs:  []txSpec{{tid: 2, hookFail: map[int]bool{2: true}}, {tid: 3, txFail: map[int]bool{1: true}}},
 			apps: [][]appOp{cat(off(2), off(2), off(2), []appOp{{kind: "abort"}}), cat(off(3), off(3), []appOp{{kind: "abort"}})}},
 		{name: "rxhookerr", hasRx: true, rx: []rxItem{{id: 0x99}, {id: 0x10}, {id: 0x11, hookFail: true}, {id: 0x10}, {end: true}},
 			txs:  []txSpec{{tid: 2}},
 			apps: [][]appOp{cat(off(2), toggle(2, true))}},
+		{name: "starton", txs: []txSpec{{tid: 2, startOn: true}, {tid: 3}},
+			apps: [][]appOp{cat(off(2), toggle(2, false), off(3)), cat(toggle(3, true), toggle(2, true))}},
 		{name: "cancelrace", hasRx: true, rx: []rxItem{{id: 0x10}, {end: true, endErr: true}},
 			txs:  []txSpec{{tid: 2}},
 			apps: [][]appOp{cat(off(2), []appOp{{kind: "abort"}}), {{kind: "cancel"}}, toggle(2, true)}},
@@ -556,11 +564,23 @@ func tickScenario() scenario {
 			cat(wt, []appOp{{kind: "offer", m: 2}}, wt, wt, lockBlock(appOp{kind: "mutate", m: 2, v: 17}), wt)}}
 }
 
+// tickOnScenario: a cyclic message that is already enabled when its transmitter starts (nobody
+// toggles before the first ticks are due).
+func tickOnScenario() scenario {
+	wt := []appOp{{kind: "waittick", m: 2}}
+	return scenario{name: "tickson", txs: []txSpec{{tid: 2, cyclic: true, startOn: true, hookLock: map[int]bool{1: true}}},
+		apps: [][]appOp{
+			cat(wt, wt, wt, toggle(2, false), wt, wt, toggle(2, true), wt),
+			cat(wt, wt, []appOp{{kind: "offer", m: 2}}, wt)}}
+}
+
 func randomScenario(rng *rand.Rand, k int) scenario {
 	sc := scenario{name: fmt.Sprintf("rand%d", k)}
 	ntx := 1 + rng.Intn(2)
 	for i := 0; i < ntx; i++ {
 		x := txSpec{tid: 2 + i, hookFail: map[int]bool{}, hookLock: map[int]bool{}, txFail: map[int]bool{}}
+		x.cycle = []time.Duration{0, 0, 700 * time.Microsecond, 40 * time.Millisecond, 3 * time.Second}[rng.Intn(5)]
+		x.startOn = rng.Intn(4) == 0
 		for j := 1; j <= 4; j++ {
 			if rng.Intn(3) == 0 {
 				x.hookLock[j] = true
@@ -581,6 +601,10 @@ func randomScenario(rng *rand.Rand, k int) scenario {
 			it := rxItem{id: []uint32{0x10, 0x11, 0x99, 0x10}[rng.Intn(4)], hookLock: rng.Intn(3) == 0}
 			if rng.Intn(8) == 0 {
 				it.unmFail = true
+			}
+			if rng.Intn(6) == 0 {
+				// remote / extended / wrong-length frames, with known and unknown IDs
+				it = malformedShape(it, rng.Intn(3))
 			}
 			if rng.Intn(8) == 0 {
 				it.hookFail = true
